@@ -60,7 +60,42 @@ func verifyTxs(block *types.Block, txGuard TxGuard, chainId uint16) error {
 			return ErrVerifyBlockFailed
 		}
 	}
+	// the txGuard only knows the parent blocks. A transaction must not be repeated in this block either
+	if hasRepeatedTx(block.Txs) {
+		log.Error("Consensus verify fail: tx is repeated in the block")
+		return ErrVerifyBlockFailed
+	}
 	return nil
+}
+
+// hasRepeatedTx test if a transaction appears twice in the list, include the sub transactions in box transactions
+func hasRepeatedTx(txs types.Transactions) bool {
+	appeared := make(map[common.Hash]struct{}, len(txs))
+	isRepeated := func(tx *types.Transaction) bool {
+		hash := tx.Hash()
+		if _, ok := appeared[hash]; ok {
+			return true
+		}
+		appeared[hash] = struct{}{}
+		return false
+	}
+	for _, tx := range txs {
+		if isRepeated(tx) {
+			return true
+		}
+		if tx.Type() == params.BoxTx {
+			box, err := types.GetBox(tx.Data())
+			if err != nil {
+				continue
+			}
+			for _, subTx := range box.SubTxList {
+				if isRepeated(subTx) {
+					return true
+				}
+			}
+		}
+	}
+	return false
 }
 
 // verifyHeight verify the hash of parent block
